@@ -381,7 +381,14 @@ func genValidateShape(b *strings.Builder, repo string) error {
 					}
 				}
 				s = strings.Trim(s, "\"`")
-				checks = append(checks, coqString(s))
+				// one entry per distinct message (the same message returned from two places is one check to the caller)
+				seen := false
+				for _, c := range checks {
+					seen = seen || c == coqString(s)
+				}
+				if !seen {
+					checks = append(checks, coqString(s))
+				}
 			}
 		}
 		return true
@@ -392,7 +399,7 @@ func genValidateShape(b *strings.Builder, repo string) error {
 	if len(lits) != 2 {
 		return fmt.Errorf("IsQuadTree: expected exactly one mathhelp.FBetweenInc(_, lo, hi), found %d bounds", len(lits))
 	}
-	fmt.Fprintf(b, "(* pointindex.IsQuadTree: bounds of the cell size ratio test, and the error messages of its checks in source order *)\n")
+	fmt.Fprintf(b, "(* pointindex.IsQuadTree: bounds of the cell size ratio test, and the distinct error messages of its checks in source order *)\n")
 	fmt.Fprintf(b, "Definition gen_quadtree_ratio_lo : dec := %s.\nDefinition gen_quadtree_ratio_hi : dec := %s.\n", lits[0], lits[1])
 	fmt.Fprintf(b, "Definition gen_quadtree_checks : list string :=\n [%s].\n\n", strings.Join(checks, ";\n  "))
 	return nil
